@@ -283,6 +283,9 @@ class STensor:
     def __matmul__(self, o):
         return matmul(self, o)
 
+    def __mod__(self, o):
+        return floormod(self, o)
+
     def __lt__(self, o):
         return self._bin(o, _vlt)
 
@@ -988,7 +991,7 @@ def _deleg(op):
 
 
 for _op in ("__add__ __radd__ __sub__ __rsub__ __mul__ __rmul__ __truediv__ __rtruediv__ __neg__ __pow__ __rpow__ "
-            "__lt__ __le__ __gt__ __ge__ __abs__").split():
+            "__lt__ __le__ __gt__ __ge__ __abs__ __mod__").split():
     setattr(Variable, _op, _deleg(_op))
 
 
